@@ -48,6 +48,11 @@ func (p Precompile) ClaimRewards(
 		return nil, fmt.Errorf(cmn.ErrDifferentOrigin, origin.String(), delegatorAddr.String())
 	}
 
+	// GetDelegatorValidators allocates maxRetrieve entries up front: bound the caller-chosen value
+	if maxVals := p.stakingKeeper.MaxValidators(ctx); maxRetrieve > maxVals {
+		return nil, fmt.Errorf("maxRetrieve (%d) parameter exceeds the maximum number of validators (%d)", maxRetrieve, maxVals)
+	}
+
 	validators := p.stakingKeeper.GetDelegatorValidators(ctx, delegatorAddr.Bytes(), maxRetrieve)
 	totalCoins := sdk.Coins{}
 	for _, validator := range validators {
